@@ -32,7 +32,7 @@ CLAIMED = {
  "C07": dict(
    technique="bounded-exhaustive enumeration (E1): full product of output shapes x coins-per-byte values derived per output to hit every CBOR width boundary, on min_ada_for_output, the output builder's min-coin helper and TransactionBuilder::add_output",
    text="4.4 M outputs (7 address kinds incl. a 76-byte Byron address and a malformed one x 32 coins x 69 asset bundles with names of every length 0..32 x datum options x script-ref options) x 24 coins-per-byte values computed per output so that the required coin lands on/around 24, 256, 65536, 2^32 and the u64 overflow edge: the returned coin must satisfy coin >= cpb*(160+size) for the output as carried (size measured by the independent CBOR reader) and must not exceed the bound with an 8-byte coin; add_output must never accept an output below the bound or above max_value_size; the output builder's min-coin helper must create conforming outputs.",
-   note="Function part and output builder / add_output acceptance are complete; outputs of built transactions (change, collateral return, mint helpers) are covered by the builder exploration when it is registered for C07. Trusted: refcbor sizes, the Babbage min-UTxO formula.",
+   note="Function part and output builder / add_output acceptance are complete; every output (requested, change, collateral return) of every transaction of the shared builder exploration is checked against the bound, max_value_size and max_tx_size (on the really signed bytes). Trusted: refcbor sizes, the Babbage min-UTxO formula.",
    design="DESIGN.md §3 C07"),
  "C17": dict(
    technique="bounded-exhaustive enumeration (E1): generated typed values through to_json/from_json; metadata and JSON trees to depth 3 per schema against a reference JSON->metadata conversion; Plutus data through detailed JSON; every byte length 0..200 through the chunk helpers",
@@ -49,6 +49,31 @@ CLAIMED = {
    text="Every value of the C01 space (68 root types, all values within 2/3 deviations, full presence products of body and witness set, PPU corners) and every nested value with a CDDL rule (about 100 rules) is serialised by the library and validated by cddl.rs: map keys, arities, tags (24/30/102/121-127/1280-1400/258/259/2/3), ranges, size bounds, text/bytes kinds, shortest definite head on every item except the two sanctioned forms, tag 258 and no byte-equal duplicates on every set-typed field. Validating constructors (asset name, url, dns, metadatum text/bytes incl. multi-byte text, ipv4/6) are probed at bound-1/bound/bound+1.",
    note="Trusted base: my transcription of conway.cddl (notes/conway.cddl) and refcbor. Legacy (pre-Conway) shapes the library still offers are validated against their Babbage rules and counted. Builder-produced transactions are validated in builder-output mode by the builder exploration (see C05).",
    design="DESIGN.md §3 C03"),
+ "C05": dict(
+   technique="explicit-state model checking (E2): breadth-first search over builder operation histories on the real TransactionBuilder with canonical-state deduplication; in every state every balancing method x configuration is executed (RNG answers within 1 deviation) and the built transaction is re-parsed and summed by an independent ledger oracle; model/implementation conformance checked in every state",
+   text="Histories to depth 3 (thorough 4) over 35 operations (8 inputs of key/Byron/native-script owners with ADA at three widths and 1-3 asset policies, 5 requested outputs, 9 certificates covering every deposit/refund class, 2 withdrawals, native mint / burn / two-name mint, proposal, donation, 4 fee requests, collateral, metadata); ~10 000 distinct builder states; in each, 5 (thorough 9) balancing methods x 4 (5) configurations (default, prefer_pure_change, max_value_size=70 forcing split asset change, coins_per_byte=1, do_not_burn_extra_change). Whenever balancing and build_tx succeed the transaction bytes are parsed by refcbor, inputs resolved in the scenario's UTxO table, and consumed == produced checked in u128 for lovelace and every asset id with the harness's deposit/refund table. The parsed body is also compared with the plain reference model of the history (inputs, certificates, withdrawals, mint, proposals, donation, collateral).",
+   note="Trusted: ledger rules transcription (notes/ledger_rules.md §1), refcbor, the scenario's UTxO table. State key = digest of the Debug rendering of the real sub-builders plus the model (finer than necessary, never coarser).",
+   design="DESIGN.md §3 C05"),
+ "C06": dict(
+   technique="explicit-state model checking (E2), same state space as C05; oracle: minimum fee recomputed by the harness on the really signed transaction bytes",
+   text="In every state of the C05 exploration and for every balancing method x configuration, the built transaction is completed with exactly the witnesses the ledger requires - witsVKeyNeeded computed by the harness from the parsed body and the UTxO table (payment keys of inputs and collateral, certificate / withdrawal / vote keys, keys named by native scripts in use, required signers; one bootstrap witness per Byron address) - and fee >= a*|signed tx| + b + ceil(ex-unit cost) + floor(tiered reference-script fee) is checked with big integers; a requested minimum fee is a lower bound; an exact fee is used exactly. When balancing succeeded but build_tx refuses the fee, the same oracle is applied to build_tx_unsafe().",
+   note="Trusted: notes/ledger_rules.md §2/§4, ledger.rs (min_fee, signed_bytes). One known finding (asset-change top-up outruns the fee slack at coins_per_byte=1).",
+   design="DESIGN.md §3 C06"),
+ "C09": dict(
+   technique="explicit-state model checking (E2) over histories of Plutus uses on the real builder + bounded-exhaustive enumeration (E1) of the stand-alone hashing helpers; oracle recomputes both hashes from byte spans cut out of the emitted transaction",
+   text="Histories to depth 5 (thorough 6) over Plutus spends (V1/V2/V3; script inline or by reference; datum in the witness set or inline), Plutus mint, script certificates, Plutus / native / key withdrawals, script and key voters, extra datums (new and duplicate of a spend datum), metadata; calc_script_data_hash before and after balancing. From the built bytes refcbor cuts the raw spans of witness fields 5 and 4 and of the auxiliary data; body[11] must equal blake2b256(redeemers-or-A0 || datums-if-present || language views of exactly the languages in use) with the harness's own language-view encoder, body[7] must equal blake2b256(aux span). hash_script_data / hash_auxiliary_data / hash_plutus_data are compared with the bytes a witness set built through the typed setters emits for the same arguments (redeemers {0,1,2} x map/array container x 6 datum arguments incl. duplicates and an indefinite-decoded list x 4 cost-model tables).",
+   note="Trusted: notes/ledger_rules.md §6, cryptoxide blake2b. Precondition from the property: the hash is computed after the last script item was added.",
+   design="DESIGN.md §3 C09"),
+ "C10": dict(
+   technique="explicit-state model checking (E2): BFS over all insertion orders of script and non-script items on the real builder; oracle resolves every emitted redeemer pointer in the re-parsed body by the ledger's ordering rules",
+   text="Histories to depth 5 (thorough 6) over key and Plutus inputs on adversarial outpoints (hash order != index order != insertion order), native and Plutus policies, key and script certificates, key / native-script / Plutus withdrawals, committee key / committee script / DRep script voters; every redeemer's data is a unique integer naming the item it was attached to. For each (tag, index) in the emitted witness set the item is resolved in the parsed body (inputs sorted by (txid, ix); policies bytewise; certificates in sequence; reward accounts in the ledger's RewardAccount order - script before key; voters in the ledger's Voter order) and must be the named item; no two redeemers share a pointer.",
+   note="Trusted: notes/ledger_rules.md §5. BFS visits every order of every multiset of operations, which is the permutation differential of the design.",
+   design="DESIGN.md §3 C10"),
+ "C18": dict(
+   technique="explicit-state model checking (E2): BFS over histories mixing every witness source on the real builder; oracle = script availability exactly once + size of the really signed transaction",
+   text="Histories to depth 4 (thorough 5) over 38 operations: key inputs sharing a key, Byron input, native-script inputs (inline / by reference with declared signers), Plutus inputs V1/V2/V3 (inline or reference script, witness or inline datum), collateral (same / different key), certificates of every witness class, key / native / Plutus withdrawals, five voter kinds, native and Plutus mints, required signers (new / already needed), explicit reference inputs (plain, with script size, equal to a regular input, with and without the de-duplication flag), extra datums, metadata. For every built transaction: each script-locked item has its script exactly once (witness set, or reference input present in body[18], never both unless another use supplies it inline), witness datums exactly the supplied ones once, one redeemer per Plutus use, and 0 <= full_size() - |transaction signed by exactly witsVKeyNeeded + one bootstrap witness per Byron address| < 101.",
+   note="Trusted: notes/ledger_rules.md §4, ledger.rs. Script hashes recomputed by the harness with cryptoxide.",
+   design="DESIGN.md §3 C18"),
 }
 
 PENDING_REASON = "check not built yet in this session (work in progress; see DESIGN.md §8 construction order)"
